@@ -192,6 +192,10 @@ def check_case(case):
         return {"nontrivial": False, "digest": src, "classes": ["rejected", f"perturbations={len(applied)}"] + ["mut:" + a for a in applied], "sample": None}
     except RecursionError:
         raise Skip("frontend-recursion")
+    except (KeyboardInterrupt, SystemExit, MemoryError):
+        raise
+    except BaseException as e:  # noqa  an internal error of the front end is still "not accepted"
+        return {"nontrivial": False, "digest": src, "classes": ["rejected", "rejected-by-internal-error:" + type(e).__name__] + ["mut:" + a for a in applied], "sample": None}
     ir = p.INTERNAL_proc()
     vals, total = ctrl_valuations(ir, size_max=5, idx_lo=-5, idx_hi=5, limit=60, pick=case["pick"])
     cfg0 = initial_config(case["cfg"], present=prog.get("cfg", False))
